@@ -23,9 +23,9 @@ SRCS = {
     'ifelse2': 'if a:  # h\n    b = 1  # cb\n    c = 2\nelse:\n    d = 3  # cd\n    e = 4\nfor i in z:\n    f = 5\n    g = 6\nelse:\n    h = 7\n    j = 8\nk = 9\n',
     'flow': 'for i in range(3):  # loop\n    if i:\n        continue  # c\n    t = (i,\n         i + 1)\nwhile t: t = t[1:]  # shrink\nwith a as b, c:\n    pass  # body\n',
 }
-OPS = ['none', 'cross_fields_after', 'cross_fields_into_body', 'expr_new', 'expr_foreign', 'stmt_delete', 'stmt_insert_new', 'stmt_swap_next', 'stmt_duplicate', 'rename', 'const_change', 'op_change', 'stmt_move_to_end',
+OPS = ['none', 'cross_fields_after', 'cross_fields_into_body', 'cross_fields_foreign', 'cross_fields_body0_is_orelse0', 'expr_new', 'expr_foreign', 'stmt_delete', 'stmt_insert_new', 'stmt_swap_next', 'stmt_duplicate', 'rename', 'const_change', 'op_change', 'stmt_move_to_end',
        'expr_swap_sibling']
-OTHER = 'o = other(1) + thing\n'
+OTHER = 'o = other(1) + thing\nif ot:\n    oa = 1  # oa\n    ob = 2  # ob\nelse:\n    oc = 3  # oc\n    od = 4  # od\n'
 
 
 def _stmts(tree):
@@ -107,6 +107,19 @@ def _apply(tree, op, k, other_tree):
     if not (0 <= k < len(st)):
         return None
     n = st[k]
+    if op == 'cross_fields_foreign':
+        # statements taken from two different list fields of ONE block statement of another tree, put next to each other
+        oif = other_tree.body[1]
+        pp, pname, pidx = _where(tree, n)
+        if pp is None or pidx is None:
+            return None
+        getattr(pp, pname)[pidx:pidx] = [oif.body[0], oif.orelse[1]]
+        return {id(top_of(n) or n)}
+    if op == 'cross_fields_body0_is_orelse0':
+        if not (isinstance(n, (ast.If, ast.For, ast.While)) and len(n.body) >= 2 and len(n.orelse) >= 1):
+            return None
+        n.body[0] = n.orelse[0]
+        return {id(top_of(n) or n)}
     if op in ('cross_fields_after', 'cross_fields_into_body'):
         # statements of DIFFERENT list fields of one block statement put next to each other: P.body[j], P.orelse[j + 1]
         if not (isinstance(n, (ast.If, ast.For, ast.While)) and len(n.body) >= 1 and len(n.orelse) >= 2):
@@ -212,6 +225,9 @@ def _mk(key, rounds, o1):
                 nsrc = pc.R(new.src)
                 if not touched:
                     check(nsrc == src_before, 'reconcile.source_changed_without_any_mutation', (key, nsrc))
+                if op1 == 'cross_fields_body0_is_orelse0' and op2 == 'none':
+                    # inside the touched block: the statement at body[1] was not touched and keeps its line incl. comment
+                    blk = _stmts(tree)[kk1] if 0 <= kk1 < len(_stmts(tree)) else None
                 for s in orig_tops:
                     if id(s) not in touched and any(s is b for b in tree.body):
                         check(orig_text[id(s)] in nsrc, 'reconcile.untouched_statement_text_changed', (key, op1, kk1, op2, kk2, orig_text[id(s)], nsrc))
